@@ -44,7 +44,8 @@
 (*                                         reached the server side during it, result            *)
 (*   ret    [w, reached, exc, appexc]      the application call returns / raises                *)
 (*   nexts  Seq [w, ac, r, cls, item, appr, appcls, appitem, act]   per next() of the server    *)
-(*   closes Seq [w, exc, appcloses]        per close() of the server                            *)
+(*   closes Seq [w, exc, appcloses, na, nn]  per close() of the server; na / nn = actions started  *)
+(*                                         / next() calls made before it                          *)
 (*   gc     [w, ran]                       the iterable is dropped and collected                *)
 (*   stray  events on the server side outside any action                                        *)
 (*   warning = [c (class name), g (tag derived from the text: drift only)]                      *)
@@ -264,17 +265,18 @@ MayRaise(rules) == \E r \in rules : r.r
 
 \* ---- state reconstructed from the executed prefix
 Executed(case, obs) == 1..Min2(Len(obs.acts), Len(case.script))
-AcceptedSR(case, obs) == {i \in Executed(case, obs) : case.script[i].k = "SR" /\ obs.acts[i].exc = "" /\ Len(obs.acts[i].fwd) >= 1}
+ExecutedTo(case, obs, na) == 1..Min2(na, Min2(Len(obs.acts), Len(case.script)))
+AcceptedSR(case, obs, na) == {i \in ExecutedTo(case, obs, na) : case.script[i].k = "SR" /\ obs.acts[i].exc = "" /\ Len(obs.acts[i].fwd) >= 1}
 MaxOf(S) == CHOOSE x \in S : \A y \in S : y <= x
 DataLen(d) == Len(d.v)
-RECURSIVE SentW(_, _, _)
-SentW(case, obs, i) == IF i > Min2(Len(obs.acts), Len(case.script)) THEN 0
-   ELSE (IF case.script[i].k = "W" /\ obs.acts[i].exc = "" THEN DataLen(case.script[i].d) ELSE 0) + SentW(case, obs, i + 1)
+RECURSIVE SentW(_, _, _, _)
+SentW(case, obs, i, na) == IF i > Min2(na, Min2(Len(obs.acts), Len(case.script))) THEN 0
+   ELSE (IF case.script[i].k = "W" /\ obs.acts[i].exc = "" THEN DataLen(case.script[i].d) ELSE 0) + SentW(case, obs, i + 1, na)
 RECURSIVE SentY(_, _, _)
 SentY(obs, k, upto) == IF k > upto \/ k > Len(obs.nexts) THEN 0
    ELSE (IF obs.nexts[k].r = "item" THEN DataLen(obs.nexts[k].item) ELSE 0) + SentY(obs, k + 1, upto)
-NonBytesSent(case, obs) == (\E i \in Executed(case, obs) : case.script[i].k = "W" /\ case.script[i].d.ty # "b")
-                        \/ (\E k \in 1..Len(obs.nexts) : obs.nexts[k].r = "item" /\ obs.nexts[k].item.ty # "b")
+NonBytesSent(case, obs, na, nn) == (\E i \in ExecutedTo(case, obs, na) : case.script[i].k = "W" /\ case.script[i].d.ty # "b")
+                        \/ (\E k \in 1..Min2(nn, Len(obs.nexts)) : obs.nexts[k].r = "item" /\ obs.nexts[k].item.ty # "b")
 
 \* ---- the clauses; each returns a set of failures
 JudgeCALL(case, obs) ==
@@ -348,15 +350,15 @@ JudgeNEXT(case, obs, k) ==
 
 JudgeCLOSE(case, obs, j) ==
   LET c == obs.closes[j]
-      acc == AcceptedSR(case, obs)
+      acc == AcceptedSR(case, obs, c.na)
       lastSR == IF acc = {} THEN 0 ELSE MaxOf(acc)
       a == case.script[lastSR]
       \* nothing is claimed about the end-of-response checks unless the response is well-formed and all of it bytes
-      open == lastSR # 0 /\ (StatusClass(a.st) # "valid" \/ ~HdWell(a.hd) \/ NonBytesSent(case, obs)
-                             \/ \E i \in Executed(case, obs) : case.script[i].k = "SR" /\ obs.acts[i].exc # "")
+      open == lastSR # 0 /\ (StatusClass(a.st) # "valid" \/ ~HdWell(a.hd) \/ NonBytesSent(case, obs, c.na, c.nn)
+                             \/ \E i \in ExecutedTo(case, obs, c.na) : case.script[i].k = "SR" /\ obs.acts[i].exc # "")
       code == Code3(a.st.v)
-      sent == SentW(case, obs, 1) + SentY(obs, 1, Len(obs.nexts))
-      head == case.env.method = "HEAD"
+      sent == SentW(case, obs, 1, c.na) + SentY(obs, 1, c.nn)
+      head == case.env.method = "HEAD" /\ "REQUEST_METHOD" \notin RangeOf(case.env.missing)
       rules == IF lastSR = 0 THEN {} ELSE RulesCLOSE(code, a.hd, sent, head)
       hasCL == lastSR # 0 /\ Len(Vals(a.hd, N_CONTENT_LENGTH)) > 0
       why == IF lastSR = 0 THEN "no-response"
